@@ -8,7 +8,7 @@ definitions; L5 reshape by the column count; stat table name -> numpy function.
 import ast
 
 from ..astutil import calls, const, inline, is_nan_expr, kw, parent_map, enclosing, short, straightline_env, terminates
-from ..program import AnalysisIncomplete, norm
+from ..program import AnalysisIncomplete, Func, norm
 
 OPS = ['cell_stats', 'combine', 'lesser_frequency', 'equal_frequency', 'greater_frequency', 'lowest_position',
        'highest_position', 'popularity', 'rank']
@@ -52,29 +52,62 @@ def check_op(prog, rep, m, name):
     f = m.funcs.get(name)
     if f is None:
         raise AnalysisIncomplete('local.%s not found' % name)
-    pm = parent_map(f.node)
-    # ---- L1: nditer order
-    its = [c for c in calls(f.node) if short(c) == 'nditer']
-    for c in its:
+    # ---- the lock-step walk: np.nditer in the operator itself or in a module helper it calls (parameters bound)
+    its = []          # (nditer call, function holding it, {helper parameter: caller expression text})
+    cells = set()     # names of the per-cell list in f
+    for c in calls(f.node):
+        if short(c) == 'nditer':
+            its.append((c, f, {}))
+    for n in f.own_nodes():
+        if isinstance(n, ast.For) and any(short(c) == 'nditer' for c in calls(n.iter)):
+            for c in calls(n):
+                if short(c) == 'append' and isinstance(c.func, ast.Attribute) and isinstance(c.func.value, ast.Name):
+                    cells.add(c.func.value.id)
+        if isinstance(n, ast.Assign) and isinstance(n.value, ast.Call) and isinstance(n.targets[0], ast.Name):
+            g = prog.resolve_callable(f, m, n.value.func)
+            if isinstance(g, Func) and g is not f and any(short(c) == 'nditer' for c in calls(g.node)):
+                bind = {}
+                for p, a in zip(g.params, n.value.args):
+                    bind[p] = norm(a)
+                for k in n.value.keywords:
+                    if k.arg:
+                        bind[k.arg] = norm(k.value)
+                # the helper must return the list it fills in the nditer loop
+                filled = {c.func.value.id for lp in g.own_nodes() if isinstance(lp, ast.For) and
+                          any(short(c2) == 'nditer' for c2 in calls(lp.iter))
+                          for c in calls(lp) if short(c) == 'append' and isinstance(c.func, ast.Attribute) and
+                          isinstance(c.func.value, ast.Name)}
+                rets = [r for r in g.own_nodes() if isinstance(r, ast.Return)]
+                if len(rets) == 1 and isinstance(rets[0].value, ast.Name) and rets[0].value.id in filled:
+                    for c in calls(g.node):
+                        if short(c) == 'nditer':
+                            its.append((c, g, bind))
+                    cells.add(n.targets[0].id)
+    for c, g, bind in its:
         order = kw(c, 'order')
         ok = order is not None and const(order) == 'C'
-        rep.add('L1', f, name, norm(c), c.lineno, ok,
+        rep.add('L1', g, name, norm(c), c.lineno, ok,
                 "np.nditer iterates in memory order ('K') by default; the cell order must be fixed to C (row-major) "
                 "to agree with the row-major reference list and the (-1, ncols) reshape - otherwise F-ordered or "
                 "transposed layers scramble the output")
-    for c in its:
+    for c, g, bind in its:
         # L6: the layers are taken in the caller's data_vars order
         arg = c.args[0] if c.args else None
         if isinstance(arg, ast.Name):
-            vals = [v for v in f.local_assigns().get(arg.id, []) if isinstance(v, ast.AST)]
+            vals = [v for v in g.local_assigns().get(arg.id, []) if isinstance(v, ast.AST)]
             arg = vals[0] if len(vals) == 1 else None
         ok = False
         if isinstance(arg, ast.ListComp) and len(arg.generators) == 1:
-            g = arg.generators[0]
-            tv = g.target.id if isinstance(g.target, ast.Name) else None
-            ok = isinstance(g.iter, ast.Name) and g.iter.id == 'data_vars' and not g.ifs and tv is not None and \
-                norm(arg.elt) in ('raster[%s].data' % tv, 'raster[%s].values' % tv)
-        rep.add('L6', f, name, 'layers: %s' % (norm(arg)[:120] if arg is not None else None), c.lineno, ok,
+            gen = arg.generators[0]
+            tv = gen.target.id if isinstance(gen.target, ast.Name) else None
+            src = bind.get(gen.iter.id, gen.iter.id if g is f else None) if isinstance(gen.iter, ast.Name) else None
+            elt = arg.elt
+            base = None
+            if isinstance(elt, ast.Attribute) and elt.attr in ('data', 'values') and isinstance(elt.value, ast.Subscript) and \
+                    isinstance(elt.value.value, ast.Name) and norm(elt.value.slice) == tv:
+                base = bind.get(elt.value.value.id, elt.value.value.id if g is f else None)
+            ok = src == 'data_vars' and not gen.ifs and tv is not None and base == 'raster'
+        rep.add('L6', g, name, 'layers: %s' % (norm(arg)[:120] if arg is not None else None), c.lineno, ok,
                 'the layers must be taken as raster[var] for var in data_vars, in the caller\'s data_vars order '
                 '(positions, ranks and value tuples are defined relative to that order)')
     if not its:
@@ -132,17 +165,38 @@ def check_op(prog, rep, m, name):
         rep.add('L1-ref', f, name, txt, f.node.lineno, ok,
                 'the reference layer must be flattened row-major (outer loop rows, inner loop cells)')
     # ---- per-cell loop
-    loops = [n for n in f.own_nodes() if isinstance(n, ast.For) and 'iter_list' in norm(n.iter) and
-             not any(short(c) == 'nditer' for c in calls(n.iter))]
+    def over_cells(it):
+        return (isinstance(it, ast.Name) and it.id in cells) or \
+            (isinstance(it, ast.Call) and short(it) == 'zip' and any(isinstance(a, ast.Name) and a.id in cells for a in it.args))
+    loops = [n for n in f.own_nodes() if isinstance(n, ast.For) and over_cells(n.iter)]
     if name == 'cell_stats':
-        check_cell_stats(prog, rep, m, f, loops)
+        comps = [n for n in f.own_nodes() if isinstance(n, ast.ListComp) and len(n.generators) == 1 and
+                 over_cells(n.generators[0].iter) and not n.generators[0].ifs]
+        check_cell_stats(prog, rep, m, f, loops, comps)
         return
     if not loops:
         rep.add('L3', f, name, 'per-cell loop over iter_list', f.node.lineno, None, 'per-cell loop not found')
         return
     loop = loops[0]
     tgt = loop.target
-    comb = tgt.elts[-1].id if isinstance(tgt, ast.Tuple) else tgt.id
+    refname = 'ref'
+    if isinstance(tgt, ast.Tuple) and isinstance(loop.iter, ast.Call):
+        pos = [i for i, a in enumerate(loop.iter.args) if isinstance(a, ast.Name) and a.id in cells]
+        if len(pos) != 1 or len(tgt.elts) != len(loop.iter.args) or not all(isinstance(e, ast.Name) for e in tgt.elts):
+            rep.add('L3', f, name, norm(loop.target), loop.lineno, None, 'zip targets not understood')
+            return
+        comb = tgt.elts[pos[0]].id
+        others = [i for i in range(len(tgt.elts)) if i != pos[0]]
+        if len(others) == 1:
+            refname = tgt.elts[others[0]].id
+            # the companion list must be the row-major reference list
+            rep.add('L1-ref', f, name, 'zip companion %s' % norm(loop.iter.args[others[0]]), loop.lineno,
+                    norm(loop.iter.args[others[0]]) == 'ref_list', 'the per-cell tuples must be paired with the row-major reference list')
+    elif isinstance(tgt, ast.Name):
+        comb = tgt.id
+    else:
+        rep.add('L3', f, name, norm(loop.target), loop.lineno, None, 'loop target not understood')
+        return
     # ---- L3: NaN guard dominates every non-NaN append
     body = loop.body
     guard_pos = None
@@ -173,29 +227,55 @@ def check_op(prog, rep, m, name):
     if name in FREQ:
         inner = [n for n in ast.walk(loop) if isinstance(n, ast.For) and n is not loop and norm(n.iter) == comb]
         ok = False
-        why = 'inner loop over the cell tuple not found'
+        why = 'count over the cell tuple not found'
+        shown, line = name, loop.lineno
         if inner:
             item = inner[0].target.id if isinstance(inner[0].target, ast.Name) else None
             tests = [s for s in inner[0].body if isinstance(s, ast.If)]
+            line = inner[0].lineno
             if len(tests) == 1 and len(inner[0].body) == 1:
-                op = cmp_oriented(tests[0].test)
-                other = tests[0].test.left if norm(tests[0].test.comparators[0]) == 'ref' else tests[0].test.comparators[0]
+                shown = norm(tests[0].test)
+                op = cmp_oriented(tests[0].test, refname)
+                other = tests[0].test.left if norm(tests[0].test.comparators[0]) == refname else tests[0].test.comparators[0]
                 inc = [s for s in tests[0].body if isinstance(s, ast.AugAssign) and isinstance(s.op, ast.Add)
                        and const(s.value) == 1]
                 ok = op == FREQ[name] and isinstance(other, ast.Name) and other.id == item and len(inc) == 1 \
-                    and not tests[0].orelse
-                why = 'found `ref %s item`' % op
+                    and not tests[0].orelse and len(tests[0].body) == 1
+                why = 'found `%s %s item`' % (refname, op)
+                cnt = norm(inc[0].target) if inc else 'count'
+                # count reset per cell, appended after the inner loop
+                resets = [s for s in body if isinstance(s, ast.Assign) and norm(s.targets[0]) == cnt and const(s.value) == 0]
+                ap = [c for i, c in appends if norm(c.args[0]) == cnt]
+                rep.add('L2-count', f, name, '%s = 0 per cell; append(%s)' % (cnt, cnt), loop.lineno, len(resets) == 1 and len(ap) == 1
+                        and len(appends) == 1, 'the counter must be reset for every cell and appended once')
             else:
                 why = 'inner loop body is not a single comparison'
-        rep.add('L2', f, name, norm(inner[0].body[0].test) if inner and isinstance(inner[0].body[0], ast.If) else name,
-                inner[0].lineno if inner else loop.lineno, ok,
+        else:
+            # counting expression: sum(1 for item in comb if TEST) / sum(TEST for item in comb) / len([... if TEST])
+            for i, c in appends:
+                e = inline(c.args[0], straightline_env(body))
+                gen = test = None
+                if isinstance(e, ast.Call) and short(e) == 'sum' and len(e.args) == 1 and isinstance(e.args[0], (ast.GeneratorExp, ast.ListComp)):
+                    gen = e.args[0]
+                    if len(gen.generators) == 1 and len(gen.generators[0].ifs) == 1 and const(gen.elt) == 1:
+                        test = gen.generators[0].ifs[0]
+                    elif len(gen.generators) == 1 and not gen.generators[0].ifs and isinstance(gen.elt, ast.Compare):
+                        test = gen.elt
+                elif isinstance(e, ast.Call) and short(e) == 'len' and len(e.args) == 1 and isinstance(e.args[0], ast.ListComp):
+                    gen = e.args[0]
+                    if len(gen.generators) == 1 and len(gen.generators[0].ifs) == 1:
+                        test = gen.generators[0].ifs[0]
+                if gen is not None and test is not None and norm(gen.generators[0].iter) == comb and \
+                        isinstance(gen.generators[0].target, ast.Name) and isinstance(test, ast.Compare) and len(test.ops) == 1:
+                    item = gen.generators[0].target.id
+                    op = cmp_oriented(test, refname)
+                    other = test.left if norm(test.comparators[0]) == refname else test.comparators[0]
+                    shown, line = norm(test), c.lineno
+                    ok = op == FREQ[name] and isinstance(other, ast.Name) and other.id == item and len(appends) == 1
+                    why = 'found `%s %s item`' % (refname, op)
+        rep.add('L2', f, name, shown, line, ok,
                 '%s must count the layers with `ref %s item` (the three operators partition the layers: > == <); %s'
                 % (name, FREQ[name], why))
-        # count reset per cell, appended after the inner loop
-        resets = [s for s in body if isinstance(s, ast.Assign) and norm(s.targets[0]) == 'count' and const(s.value) == 0]
-        ap = [c for i, c in appends if norm(c.args[0]) == 'count']
-        rep.add('L2-count', f, name, 'count = 0 per cell; append(count)', loop.lineno, len(resets) == 1 and len(ap) == 1,
-                'the counter must be reset for every cell and appended once')
     if name in ('lowest_position', 'highest_position'):
         fn = 'min' if name.startswith('lowest') else 'max'
         ok = False
@@ -227,7 +307,7 @@ def check_op(prog, rep, m, name):
         check_combine(rep, f, loop, comb)
 
 
-def check_cell_stats(prog, rep, m, f, loops):
+def check_cell_stats(prog, rep, m, f, loops, comps=()):
     # table: name -> np.<name>
     vals = m.assigns.get('funcs', [])
     ok = len(vals) == 1 and isinstance(vals[0], ast.Dict)
@@ -239,63 +319,139 @@ def check_cell_stats(prog, rep, m, f, loops):
                     'statistic %r must map to the same-named NumPy function (the non-nan variant, so NaN propagates)' % key)
     else:
         rep.add('L-table', m, 'cell_stats', 'funcs table', 1, None, 'module table `funcs` not found as one dict literal')
+    env = {n: v[0] for n, v in f.local_assigns().items() if len(v) == 1 and isinstance(v[0], ast.AST) and n not in f.params}
+
+    def is_stat_of(e, cell):
+        """e is funcs[func](cell), possibly through a single-assignment local holding funcs[func]"""
+        if not (isinstance(e, ast.Call) and len(e.args) == 1 and not e.keywords and norm(e.args[0]) == cell):
+            return False
+        fn = e.func
+        if isinstance(fn, ast.Name) and fn.id in env:
+            fn = env[fn.id]
+        return isinstance(fn, ast.Subscript) and norm(fn.value) == 'funcs' and norm(fn.slice) == 'func'
     ok = False
+    shown = None
     for lp in loops:
         for c in calls(lp):
-            if short(c) == 'append' and c.args:
-                a = c.args[0]
-                if isinstance(a, ast.Call) and isinstance(a.func, ast.Subscript) and norm(a.func.value) == 'funcs' and \
-                        norm(a.func.slice) == 'func' and len(a.args) == 1 and norm(a.args[0]) == norm(lp.target):
-                    ok = True
-    rep.add('L4', f, 'cell_stats', 'out.append(funcs[func](comb))', f.node.lineno, ok,
-            'each cell must be the chosen statistic of that cell\'s tuple across layers')
+            if short(c) == 'append' and c.args and isinstance(lp.target, ast.Name):
+                shown = norm(c)
+                ok = ok or is_stat_of(c.args[0], lp.target.id)
+    for cp in comps:
+        if isinstance(cp.generators[0].target, ast.Name):
+            shown = norm(cp)
+            ok = ok or is_stat_of(cp.elt, cp.generators[0].target.id)
+    rep.add('L4', f, 'cell_stats', shown or 'per-cell statistic', f.node.lineno, ok,
+            'each cell must be the chosen statistic funcs[func] of that cell\'s tuple across layers')
+
+
+def _block_of(root, stmt):
+    """(statement list holding stmt, index) inside root"""
+    for n in ast.walk(root):
+        for fld in ('body', 'orelse'):
+            b = getattr(n, fld, None)
+            if isinstance(b, list) and stmt in b:
+                return b, b.index(stmt)
+    return None, None
 
 
 def check_combine(rep, f, loop, comb):
-    # ids from 1 in first-occurrence order; inverse map in attrs
-    init = [v for v in f.local_assigns().get('value', []) if isinstance(v, ast.AST)]
-    ok_init = len(init) >= 1 and const(init[0]) == 1
-    rep.add('L4', f, 'combine', 'value = %s' % (norm(init[0]) if init else None), f.node.lineno, ok_init,
-            'combination ids must be numbered from 1')
-    # in the else-branch of `if comb in unique_comb`: unique_comb[comb] = value; unique_values[value] = comb; value += 1
-    found = {'fwd': False, 'inv': False, 'inc': False, 'store': False}
+    """ids from 1 in first-occurrence order, forward map tuple -> id, inverse map id -> tuple in attrs; every cell gets
+    the id recorded for its tuple.  Names are taken from the structure (the membership test on the cell tuple)."""
+    tests = [n for n in ast.walk(loop) if isinstance(n, ast.If) and isinstance(n.test, ast.Compare) and len(n.test.ops) == 1
+             and isinstance(n.test.ops[0], (ast.In, ast.NotIn)) and norm(n.test.left) == comb]
+    if len(tests) != 1:
+        rep.add('L4', f, 'combine', 'membership test of the cell tuple', loop.lineno, None,
+                'expected one `%s in <dict>` / `%s not in <dict>` test, found %d' % (comb, comb, len(tests)))
+        return
+    t = tests[0]
+    D = norm(t.test.comparators[0]).replace('.keys()', '')
+    new, seen = (t.body, t.orelse) if isinstance(t.test.ops[0], ast.NotIn) else (t.orelse, t.body)
+    fwd = [s for s in new if isinstance(s, ast.Assign) and norm(s.targets[0]) == '%s[%s]' % (D, comb) and isinstance(s.value, ast.Name)]
+    V = fwd[0].value.id if len(fwd) == 1 else None
+    inv = [s for s in new if isinstance(s, ast.Assign) and isinstance(s.targets[0], ast.Subscript) and V is not None and
+           norm(s.targets[0].slice) == V and norm(s.value) == comb]
+    I = norm(inv[0].targets[0].value) if len(inv) == 1 else None
+    inc = [s for s in new if V is not None and norm(s).replace(' ', '') in ('%s+=1' % V, '%s=%s+1' % (V, V), '%s=1+%s' % (V, V))]
+    ordered = len(fwd) == 1 and len(inv) == 1 and len(inc) == 1 and new.index(inc[0]) > max(new.index(fwd[0]), new.index(inv[0]))
+    # no other write to the counter or the maps inside the loop
+    other = []
     for n in ast.walk(loop):
-        if isinstance(n, ast.If) and isinstance(n.test, ast.Compare) and isinstance(n.test.ops[0], ast.In) and \
-                norm(n.test.left) == comb:
-            dname = norm(n.test.comparators[0]).replace('.keys()', '')
-            for s in n.orelse:
-                t = norm(s)
-                if t == '%s[%s] = value' % (dname, comb):
-                    found['fwd'] = True
-                if isinstance(s, ast.Assign) and isinstance(s.targets[0], ast.Subscript) and \
-                        norm(s.targets[0].slice) == 'value' and norm(s.value) == comb:
-                    found['inv'] = True
-                    found['invname'] = norm(s.targets[0].value)
-                if t == 'value += 1':
-                    found['inc'] = True
-                if isinstance(s, ast.Expr) and isinstance(s.value, ast.Call) and short(s.value) == 'append' and \
-                        norm(s.value.args[0]) == 'value':
-                    found['store'] = True
-    ok = all(found[k] for k in ('fwd', 'inv', 'inc', 'store'))
-    rep.add('L4', f, 'combine', 'new combination: dict[%s] = value; inverse[value] = %s; value += 1' % (comb, comb),
-            loop.lineno, ok, 'a new tuple must get the next id, be recorded in the forward and inverse maps, and the id '
-            'incremented by one: %s' % {k: v for k, v in found.items() if k != 'invname'})
+        if isinstance(n, (ast.Assign, ast.AugAssign)) and n not in fwd + inv + inc:
+            tg = n.targets[0] if isinstance(n, ast.Assign) else n.target
+            base = tg.value if isinstance(tg, ast.Subscript) else tg
+            if V is not None and norm(base) in (V, D, I):
+                other.append(norm(n))
+        if isinstance(n, ast.Call) and short(n) in ('pop', 'clear', 'update', 'setdefault', 'popitem') and \
+                isinstance(n.func, ast.Attribute) and norm(n.func.value) in (D, I):
+            other.append(norm(n))
+    rep.add('L4', f, 'combine', 'new combination: %s[%s] = %s; %s[%s] = %s; %s += 1' % (D, comb, V, I, V, comb, V),
+            t.lineno, ordered and not other, 'a tuple seen for the first time must get the next id, be recorded in the forward and '
+            'inverse maps, and only then the id advances by one; nothing else may change them in the loop (forward %d, inverse %d, '
+            'increment %d, other writes %s)' % (len(fwd), len(inv), len(inc), other))
+    if V is None:
+        return
+    las = f.local_assigns().get(V, [])
+    outside = [v for v in las if isinstance(v, ast.AST) and not any(v is x for n in ast.walk(loop) for x in ast.iter_child_nodes(n))]
+    ok_init = len(outside) >= 1 and const(outside[0]) == 1
+    rep.add('L4', f, 'combine', '%s = %s' % (V, norm(outside[0]) if outside else None), f.node.lineno, ok_init,
+            'combination ids must be numbered from 1')
+    for nm in (D, I):
+        vals = [v for v in f.local_assigns().get(nm, []) if isinstance(v, ast.AST)] if nm else []
+        ok = len(vals) == 1 and norm(vals[0]) in ('{}', 'dict()')
+        rep.add('L4', f, 'combine', '%s = %s' % (nm, norm(vals[0]) if vals else None), f.node.lineno, ok,
+                'the forward / inverse maps must start empty')
     # attrs carry the inverse map
     ok = False
     for c in calls(f.node):
         if short(c) == 'DataArray':
             a = kw(c, 'attrs')
-            if a is not None and found.get('invname') and found['invname'] in norm(a) and 'key' in norm(a):
+            if a is not None and I and I in norm(a) and 'key' in norm(a):
                 ok = True
-    rep.add('L4', f, 'combine', 'attrs=dict(key=<id -> tuple map>)', f.node.lineno, ok,
-            'the id-to-tuple key must be returned in attrs')
-    # repeated combinations resolved through the forward map
-    fix = False
-    for n in f.own_nodes():
-        if isinstance(n, ast.Assign) and isinstance(n.targets[0], ast.Subscript) and 'unique_comb[' in norm(n.value):
-            fix = True
-    rep.add('L4', f, 'combine', 'repeated tuples take the id stored for the tuple', f.node.lineno, fix,
-            'cells whose tuple was seen before must receive that tuple\'s id')
+    rep.add('L4', f, 'combine', 'attrs=dict(key=%s)' % I, f.node.lineno, ok, 'the id-to-tuple key must be returned in attrs')
+    # ---- the value every cell receives: on each path exactly one append to the result list, of the tuple's id
+    blk, ti = _block_of(loop, t)
+    after = blk[ti + 1:] if blk is not None else []
+
+    def appends_in(stmts):
+        out = []
+        for s in stmts:
+            if isinstance(s, ast.Expr) and isinstance(s.value, ast.Call) and short(s.value) == 'append' and s.value.args:
+                out.append((norm(s.value.func.value), s.value.args[0], s))
+        return out
+    lookup = '%s[%s]' % (D, comb)
+    # the result list is the one turned into the output array
+    res = {norm(c.args[0]) for c in calls(f.node) if short(c) in ('array', 'asarray') and c.args and isinstance(c.args[0], ast.Name)}
+    if len(res) != 1:
+        rep.add('L4', f, 'combine', 'per-cell id', t.lineno, None, 'expected one list converted to the output array, found %s' % sorted(res))
+        return
+    R = next(iter(res))
+    a_new = [(a, s) for lst, a, s in appends_in(new) if lst == R]
+    a_seen = [(a, s) for lst, a, s in appends_in(seen) if lst == R]
+    a_aft = [(a, s) for lst, a, s in appends_in(after) if lst == R]
+    once = len(a_new) + len(a_aft) == 1 and len(a_seen) + len(a_aft) == 1
+    good_new = all((norm(a) == V and new.index(s) < new.index(inc[0])) or (norm(a) == lookup and new.index(s) > new.index(fwd[0]))
+                   for a, s in a_new) if ordered else False
+    good_aft = all(norm(a) == lookup for a, s in a_aft)
+    fixup = False
+    good_seen = True
+    if ordered and not all(norm(a) in (V, lookup) for a, s in a_new):
+        good_new = False
+    for a, s in a_seen:
+        if norm(a) == lookup:
+            continue
+        if norm(a) == '0':
+            # deferred: a later pass replaces the 0 placeholders by the id stored for the tuple
+            for n in f.own_nodes():
+                if isinstance(n, ast.Assign) and isinstance(n.targets[0], ast.Subscript) and norm(n.targets[0].value) == R \
+                        and ('%s[' % D) in norm(n.value) and n.lineno > loop.end_lineno:
+                    fixup = True
+            good_seen = good_seen and fixup
+        else:
+            good_seen = False
+    rep.add('L4', f, 'combine', 'every cell appends the id of its tuple to %s once (first occurrence: %s, repeated: %s%s)' % (
+        R, [norm(a) for a, s in a_new + a_aft], [norm(a) for a, s in a_seen + a_aft], ', placeholders resolved later' if fixup else ''),
+        t.lineno, once and good_new and good_aft and good_seen,
+        'cells whose tuple was seen before must receive that tuple\'s id, first occurrences the freshly allocated one')
 
 
 def check(prog, rep):
